@@ -466,6 +466,11 @@ func (p *PHYPayload) DecodeFRMPayloadToMACCommands() error {
 		return errors.New("lorawan: MACPayload must be of type *MACPayload")
 	}
 
+	// nothing to decode (e.g. FPort=0 without FRMPayload: no mac-commands)
+	if len(macPL.FRMPayload) == 0 {
+		return nil
+	}
+
 	var err error
 	macPL.FRMPayload, err = decodeDataPayloadToMACCommands(p.isUplink(), macPL.FRMPayload)
 	return err
